@@ -385,6 +385,11 @@ func vfC15Run(v *vfT, c vfC15Case) {
 		}
 		v.Label("pre-existing-video-transceiver")
 	}
+	for _, sec := range c.Offer.Sections {
+		if sec.Port0 != "" {
+			v.Label("offer-section:" + sec.Port0)
+		}
+	}
 	if err := pc.SetRemoteDescription(SessionDescription{Type: SDPTypeOffer, SDP: vfFamCOfferSDP(c.Offer, 1)}); err != nil {
 		v.Label("srd-error:" + vfC15Clip(err.Error()))
 		return
@@ -427,7 +432,7 @@ func TestVerif_C15_Negotiation(t *testing.T) {
 	}, func(v *vfT) vfC15Case {
 		var c vfC15Case
 		c.Local = vfFamCGenLocal(v.R)
-		c.Offer, _ = vfFamCGenOffer(v.R, c.Local, false, false)
+		c.Offer, _ = vfFamCGenOffer(v.R, c.Local, false, false, false)
 		c.PreA = rapid.IntRange(0, 3).Draw(v.R, "preA") == 0
 		c.PreV = rapid.IntRange(0, 3).Draw(v.R, "preV") == 0
 		c.Reoffer = rapid.IntRange(0, 4).Draw(v.R, "reoffer") == 0
